@@ -82,5 +82,19 @@ func init() {
 			}
 			engine.RunSched(r, engine.SchedSpec{Name: sc.Name, WorkerArgs: []string{"worker", "sched-store"}, Scenario: sc, Bound: bound, Horizon: 1500, BudgetS: budget})
 		}
+		// writers next to a full sync that is being completed (requests as the HTTP handler receives them; the worker
+		// is C09's): termination only - a writer and the completion must not wait for each other
+		for _, fsc := range []map[string]interface{}{
+			{"name": "S18-batch-vs-fullsync-completion", "allowed": []string{"*"}, "threads": [][]map[string]interface{}{
+				{{"k": "start", "id": "x", "ents": []string{"e1"}}, {"k": "end", "id": "x"}}, {{"k": "batch", "ents": []string{"e2"}}}}},
+			{"name": "S19-transaction-vs-fullsync-completion", "allowed": []string{"*"}, "threads": [][]map[string]interface{}{
+				{{"k": "start", "id": "x", "ents": []string{"e1"}}, {"k": "end", "id": "x"}}, {{"k": "txn", "ents": []string{"e2"}}}}},
+		} {
+			bound, budget := 1, 60
+			if !r.Quick() {
+				bound, budget = 2, 600
+			}
+			engine.RunSched(r, engine.SchedSpec{Name: fsc["name"].(string), WorkerArgs: []string{"worker", "sched-fullsync"}, Scenario: fsc, Bound: bound, Horizon: 2500, BudgetS: budget})
+		}
 	})
 }
